@@ -21,6 +21,7 @@ import (
 	"github.com/pion/transport/v3/vnet"
 	"verifharness/internal/gstate"
 	"verifharness/internal/res"
+	"verifharness/internal/sockq"
 	"verifharness/internal/vn"
 )
 
@@ -83,7 +84,12 @@ func (s *sUDP) Deliver(d []byte) bool {
 	// loopback sendto queues the datagram on the listener's socket before returning; the datagram has been
 	// dispatched once the read loop is parked in the kernel again (two consecutive snapshots)
 	ok := 0
+	port := s.l.Addr().(*net.UDPAddr).Port
 	for t0 := time.Now(); time.Since(t0) < 5*time.Second; {
+		if n, found := sockq.Pending(port); !found || n != 0 {
+			ok = 0
+			continue // still in the kernel queue (the netpoller has not woken the read loop yet)
+		}
 		ps := gstate.ParkedIn(gstate.Snapshot(), "udp.(*listener).readLoop")
 		if len(ps) >= 1 && allIOWait(ps) {
 			ok++
